@@ -12,11 +12,11 @@ func Verif_C12_minter_roundtrip() {
 	kinds := verifKinds(n, verif_choice("kinds", verifKindCount(n)))
 	s := verifSchedule(n, kinds)
 	cur := verif_choice("cur", n)
-	g0 := types.GenesisState{Params: s.params, MinterState: types.MinterState{SequenceId: uint32(cur + 1), AmountMinted: verif_int_range("minted", "0", "1e40"),
+	g0 := types.GenesisState{Params: s.params, MinterState: types.MinterState{SequenceId: verifSeq(cur), AmountMinted: verif_int_range("minted", "0", "1e40"),
 		RemainderToMint: verif_dec_range("rtm", "0", "999999999999999999"), RemainderFromPreviousMinter: verif_dec_range("carry", "0", "999999999999999999"),
 		LastMintBlockTime: verif_time("t_last")}}
 	for i := 0; i < cur; i++ {
-		g0.StateHistory = append(g0.StateHistory, &types.MinterState{SequenceId: uint32(i + 1), AmountMinted: verif_int_range("hminted"+idx(i), "0", "1e40"),
+		g0.StateHistory = append(g0.StateHistory, &types.MinterState{SequenceId: verifSeq(i), AmountMinted: verif_int_range("hminted"+idx(i), "0", "1e40"),
 			RemainderToMint: verif_dec_range("hrtm"+idx(i), "0", "999999999999999999"), RemainderFromPreviousMinter: verif_dec_range("hcarry"+idx(i), "0", "999999999999999999"),
 			LastMintBlockTime: verif_time("ht" + idx(i))})
 	}
